@@ -173,8 +173,8 @@ def run_property(prop, contract_module, tier='quick', seed=0, procs=None, extra_
             f['task'] = r['task']
             failures.append(f)
 
-    n_inst = sum(a['instances'] for a in records.values())
-    n_dis = sum(a['discharged'] for a in records.values())
+    n_inst = sum(a['instances'] for a in records.values() if a['kind'] != 'probe')
+    n_dis = sum(a['discharged'] for a in records.values() if a['kind'] != 'probe')
 
     if os.path.isdir(REPLAY_DIR):
         for fn in os.listdir(REPLAY_DIR):
